@@ -118,7 +118,7 @@ def run(ctx, res):
                 '0..7 adapter threads calling update / end_of_snapshot / clear_snapshot / failure with payloads 0 B .. 200 kB, events nested in subscribe(), pool 1,2,3,8, '
                 'occasional write fault on the k-th sendall (leaving a fragment on the wire); PCT and uniform random schedules; every put / get / sendall replayed through Model/Outbound.v; '
                 'one run in four with line-granular preemption (every source line of the library a yield point), judged by the oracle only; the oracle also checks, per listener call, that the line enqueued carries that call\'s payload; '
-                'non-trivial = distinct runs with at least two producer threads')
+                'plus one line whose length (with / without CRLF) is exactly at, just below and just above 1, 4, 8, 16, 32, 64, 128 KiB (oracle only); non-trivial = distinct runs with at least two producer threads')
     shard = max(20, n // (nproc * 2))
     jobs = []
     k = 0
@@ -163,6 +163,7 @@ def run(ctx, res):
         if res.evaluations % 150 == 0:
             res.sample({'scenario': d['scenario'], 'schedule': d['schedule'][:40], 'lines': [x[:80] for x in d['sent'][:6]]})
     res.traces = len(digs)
+    boundary_part(ctx, res)
     if ctx.tier == 'thorough':
         real_thread_stress(ctx, res)
     # keep one violation per kind
@@ -174,6 +175,51 @@ def run(ctx, res):
             uniq.append(v)
         seen.add(k)
     res.oracle_violations[:] = uniq
+
+
+def boundary_scenario(size):
+    from datarun import Scenario
+    return Scenario(1, [[('a1', 'SUB', 'a')]], {'a': {'snap': [True], 'sub': ['ret'], 'nest': [['upd', 'upd']]}}, sizes={0: size})
+
+
+def boundary_run(size):
+    sc = boundary_scenario(size)
+    r = datarun.run_scenario(sc, dsched.RandomChooser(random.Random(size)), eager=('writer',), probe=False)
+    return sc, r
+
+
+def boundary_cases():
+    """payload sizes that put the length of one line — with and without its CRLF — exactly at, one below and one above the
+    powers of two from 1 KiB to 128 KiB (the natural buffer / slice sizes)"""
+    sc, r = boundary_run(1000)
+    big = [x for x in r.sent if b'x' * 1000 in x]
+    if len(big) != 1:
+        return None, 'calibration run: %d lines carry the 1000-byte payload' % len(big)
+    c = len(big[0]) - 1000                 # everything but the payload, CRLF included
+    sizes = []
+    for T in (1024, 4096, 8192, 16384, 32768, 65536, 131072):
+        for d in (-1, 0, 1, 2, 3):
+            if T - c + d > 0:
+                sizes.append(T - c + d)
+    return sizes, None
+
+
+def boundary_part(ctx, res):
+    sizes, err = boundary_cases()
+    if sizes is None:
+        res.oracle_violations.append({'case': {'scenario': boundary_scenario(1000).describe(), 'schedule': []}, 'detail': err, 'key': {'kind': 'boundary_calibration'}, 'kind': 'schedule'})
+        return
+    for size in sizes:
+        sc, r = boundary_run(size)
+        res.evaluations += 1
+        res.count('line-length-at-power-of-two')
+        for d, k in datarun.oracle_c16(r, datarun.Facts(r)):
+            k = dict(k)
+            k['boundary'] = True
+            res.oracle_violations.append({'case': {'scenario': sc.describe(), 'schedule': [c for c, _ in r.taken], 'source': 'boundary'}, 'detail': d, 'key': k, 'kind': 'schedule'})
+        if r.crashes:
+            res.oracle_violations.append({'case': {'scenario': sc.describe(), 'schedule': [c for c, _ in r.taken], 'source': 'boundary'},
+                                          'detail': 'a library thread died with %r' % (r.crashes[0],), 'key': {'kind': 'crash', 'boundary': True}, 'kind': 'schedule'})
 
 
 def real_thread_stress(ctx, res):
@@ -270,6 +316,13 @@ def minimise(ctx, v):
 
 
 def search(ctx, res):
+    class R:
+        pass
+    rr = R()
+    rr.oracle_violations, rr.evaluations, rr.count = [], 0, (lambda *a: None)
+    boundary_part(ctx, rr)
+    if rr.oracle_violations:
+        return rr.oracle_violations[0]
     rng = random.Random(ctx.seed + 11)
     for out in (work((rng.getrandbits(40), 150)) for _ in range(6)):
         for d in out:
